@@ -16,11 +16,12 @@ import (
 	"time"
 
 	"github.com/gagliardetto/solana-go"
+	"github.com/ipfs/go-cid"
 	"github.com/rpcpool/yellowstone-faithful/compactindexsized"
 	"github.com/rpcpool/yellowstone-faithful/gsfa/linkedlog"
 	"github.com/rpcpool/yellowstone-faithful/gsfa/manifest"
 	"github.com/rpcpool/yellowstone-faithful/indexes"
-	"github.com/tidwall/hashmap"
+	"github.com/rpcpool/yellowstone-faithful/indexmeta"
 )
 
 // ---------------------------------------------------------------------------------------------
@@ -32,6 +33,7 @@ var (
 	c06IdxKeys   [][]byte
 	c06IdxVals   [][]byte
 	c06IdxSealed bool
+	c06IdxFile   string // name of the file the index was sealed into
 	c06NotFound  = errors.New("not found (index table model)")
 )
 
@@ -65,6 +67,9 @@ func c06Model_BuilderSeal(b *compactindexsized.Builder, ctx context.Context, f *
 		}
 	}
 	c06IdxSealed = true
+	if f != nil {
+		c06IdxFile = f.Name()
+	}
 	return nil
 }
 
@@ -117,6 +122,8 @@ func c06Model_PKBytes(p solana.PublicKey) []byte { return []byte(p[:]) }
 //   a.accum.Len() > 100_000                     -> a.accum.Len() > verifC06AccumLimit
 //   time.After(1 * time.Second)                 -> verifC06Timer(a.exiting, a.fullBufferWriterChan)
 //   len(values) < 100   (C06.partial only)      -> len(values) < verifC06ColdLimit
+//   make(chan ..., 50)                          -> make(chan ..., verifC06ChanCap)
+//   int(1_000_000) (hashmap capacities)         -> int(8)   (optional, interpreter speed only)
 
 var (
 	verifC06Parked     = 256
@@ -140,49 +147,73 @@ func verifC06RunOthers() { time.Sleep(2 * time.Millisecond) }
 
 // ---------------------------------------------------------------------------------------------
 
-// c06NewWriter initialises a GsfaWriter field by field like NewGsfaWriter does, with the index
-// builder and the manifest cut. withFlusher=false pre-loads the completion channel so that Close
-// does not wait for a flusher goroutine (sequential obligations).
-func c06NewWriter(dir string, chanCap int, withFlusher bool) *GsfaWriter {
-	ctx, cancel := context.WithCancel(context.Background())
-	w := &GsfaWriter{
-		fullBufferWriterChan: make(chan linkedlog.KeyToOffsetAndSizeAndBlocktime, chanCap),
-		popRank:              newRollingRankOfTopPerformers(10_000),
-		offsets:              hashmap.New[solana.PublicKey, [2]uint64](8),
-		accum:                hashmap.New[solana.PublicKey, []*linkedlog.OffsetAndSizeAndSlot](8),
-		ctx:                  ctx,
-		cancel:               cancel,
-		fullBufferWriterDone: make(chan struct{}),
-		indexRootDir:         dir,
-		exiting:              new(atomic.Bool),
-		man:                  &manifest.Manifest{},
-		offsetsWriter:        &indexes.PubkeyToOffsetAndSize_Writer{},
+// c06InitOS: package os is not a source root, so its sentinel os.ErrNotExist has no value under
+// symgo; NewGsfaWriter compares against it. It is given the not-exist error of the file model.
+func c06InitOS() {
+	verifC06MkDir("/memfs")
+	if os.ErrNotExist == nil {
+		_, err := os.Stat("/memfs/c06-no-such-file")
+		os.ErrNotExist = err
 	}
-	ll, err := linkedlog.NewLinkedLog(dir + "/linked-log")
-	verifAssert(err == nil, "C06: NewLinkedLog failed")
-	w.ll = ll
-	verifC06QuietMutex(&w.mu)
-	if withFlusher {
-		go w.fullBufferWriter()
-		if verifParam("eager", 0) == 1 {
-			// eager=1 (quick tiers and the *-deep obligations): the flusher runs its prologue (no
-			// shared effect: it reads exiting, which is still false, and blocks in its select)
-			// before the first Push. All later timings are still explored; the thorough tiers of
-			// C06.flusher / C06.accum do not apply this reduction.
-			verifC06RunOthers()
+}
+
+// verifC06MkDir is an engine intrinsic (ext_C06.go): registers a directory of the file model
+// (which knows files only) and makes os.Stat / os.MkdirAll directory-aware, so that the real
+// gsfa.isDir runs; natively the directory is created.
+func verifC06MkDir(path string) { os.MkdirAll(path, 0o755) }
+
+// cuts: manifest and creation / opening of the pubkey index (metadata and file format are
+// C10 / C04); the table model of c06_common.go stands behind Builder and DB.
+func c06Model_NewManifest(filename string, meta indexmeta.Meta) (*manifest.Manifest, error) {
+	// like the real one: a missing manifest file is created with a header
+	if _, err := os.Stat(filename); err != nil {
+		if err := os.WriteFile(filename, []byte("gsfamnfs-header-model"), 0o644); err != nil {
+			return nil, err
 		}
-	} else {
-		w.fullBufferWriterDone = make(chan struct{}, 1)
-		w.fullBufferWriterDone <- struct{}{}
+	}
+	return &manifest.Manifest{}, nil
+}
+
+func c06Model_NewIndexWriter(epoch uint64, rootCid cid.Cid, network indexes.Network, tmpDir string) (*indexes.PubkeyToOffsetAndSize_Writer, error) {
+	return &indexes.PubkeyToOffsetAndSize_Writer{}, nil
+}
+
+func c06Model_OpenIndexReader(reader indexes.ReaderAtCloser) (*indexes.PubkeyToOffsetAndSize_Reader, error) {
+	f, ok := reader.(*os.File)
+	if !ok || !c06IdxSealed || f.Name() != c06IdxFile {
+		return nil, errors.New("index table model: this is not the file the index was sealed into")
+	}
+	return &indexes.PubkeyToOffsetAndSize_Reader{}, nil
+}
+
+func c06Model_IndexReaderClose(r *indexes.PubkeyToOffsetAndSize_Reader) error { return nil }
+
+// c06NewWriter: the real NewGsfaWriter on a fresh directory (cuts above), with the capacity of
+// the hand-over channel set through the overlay rewrite of its literal. GsfaWriter.mu is declared
+// goroutine-local; with eager the flusher runs its prologue before the caller continues.
+var verifC06ChanCap = 50
+
+func c06NewWriter(dir string, chanCap int, eager bool) *GsfaWriter {
+	c06InitOS()
+	verifC06ChanCap = chanCap
+	w, err := NewGsfaWriter(dir, indexmeta.Meta{}, 7, cid.Cid{}, indexes.NetworkMainnet, dir+"-tmp")
+	verifAssert(err == nil && w != nil, "C06: NewGsfaWriter failed")
+	verifC06QuietMutex(&w.mu)
+	if eager {
+		// eager (quick tiers, the *-deep obligations, the sequential C06.chain*): the flusher runs
+		// its prologue (no shared effect: it reads exiting, which is still false, and blocks in its
+		// select) before the first Push. All later timings are still explored; the thorough tiers
+		// of C06.flusher / C06.accum / C06.partial do not apply this reduction.
+		verifC06RunOthers()
 	}
 	return w
 }
 
-// c06NewReader opens the linked log written by the writer and attaches the index table.
+// c06NewReader: the real NewGsfaReader on the directory the writer produced.
 func c06NewReader(dir string) *GsfaReader {
-	ll, err := linkedlog.NewLinkedLog(dir + "/linked-log")
-	verifAssert(err == nil, "C06: NewLinkedLog (reader) failed")
-	return &GsfaReader{offsets: &indexes.PubkeyToOffsetAndSize_Reader{}, ll: ll}
+	r, err := NewGsfaReader(dir)
+	verifAssert(err == nil && r != nil, "C06: NewGsfaReader cannot open the directory that NewGsfaWriter/Close produced")
+	return r
 }
 
 func c06Key(i int) solana.PublicKey {
@@ -208,15 +239,20 @@ func c06CheckGet(r *GsfaReader, pk solana.PublicKey, want []linkedlog.OffsetAndS
 	}
 }
 
-// c06SymEntry: offset, slot and flags symbolic (offset, slot < 2^bits), size = a concrete
-// serial number that makes every entry of a history distinct.
+// c06SymEntry: offset and flags symbolic (offset < 2^bits), size = a concrete serial number
+// that makes every entry of a history distinct; slot symbolic (< 2^bits) if symSlot, else a
+// concrete value derived from the serial number.
 var c06Serial uint64
 
-func c06SymEntry(bits uint) *linkedlog.OffsetAndSizeAndSlot {
-	o, l, f := verifU64("offset"), verifU64("slot"), verifU8("flags")
+func c06SymEntry(bits uint, symSlot bool) *linkedlog.OffsetAndSizeAndSlot {
+	o, f := verifU64("offset"), verifU8("flags")
 	verifAssume(o < 1<<bits) // one assume per field: `&&` on symbolic operands would fork
-	verifAssume(l < 1<<bits)
 	c06Serial++
+	l := (c06Serial * 37) % 128
+	if symSlot {
+		l = verifU64("slot")
+		verifAssume(l < 1<<bits)
+	}
 	return &linkedlog.OffsetAndSizeAndSlot{Offset: o, Size: c06Serial, Slot: l, Flags: linkedlog.Bitmap(f)}
 }
 
